@@ -433,3 +433,7 @@ func IteBool(c, a, b bool) bool {
 	}
 	return b
 }
+
+func AdvanceClock(d int64) { time.Sleep(time.Duration(d)) }
+
+func ForkGoroutineOrder(on bool) {}
